@@ -68,7 +68,9 @@ Record case := {
   c_custom : list (N * N);          (* custom_generator(lines) *)
   c_logical_in : list (N * N);      (* CachingLogicalLineFinder(lines).logical_line_in(n), n = 1 .. length *)
   c_queries : list query;
-  c_tok_regions : option (list region)   (* tokenize's comment/string spans with prefixes (valid texts only) *)
+  c_tok_regions : option (list region);  (* tokenize's comment/string spans with prefixes (valid texts only) *)
+  c_tok_logical : option (list (N * N))  (* tokenize's statements plus the comment-only lines between them (valid texts
+                                            without nested same-quote f-strings and without lone-backslash lines) *)
 }.
 
 Definition res_opt {A} (r : res A) : option (option A) :=     (* None = out of fuel *)
@@ -104,6 +106,7 @@ Definition dedup (l : list N) : list N :=
 (* codes: 1 regions, 2 real_code, 3 length, 4 get_line_number, 5 get_line_start/end, 6 get_line,
    7 custom_generator, 8 logical_line_in, 9 word query, 10 primary query, 11 out of fuel,
    20 reference lexer (ref_regions) differs from the tokenizer's spans (a fact about the spec, not about rope),
+   22 reference logical lines (ref_generator) differ from the tokenizer's statements (a fact about the spec),
    21 a theorem's conclusion fails on this case (cannot happen while the proofs are in force) *)
 Definition run_case (c : case) : list N :=
   let u := table_of (c_alnum c) (c_space c) (c_xid c) in
@@ -130,8 +133,18 @@ Definition run_case (c : case) : list N :=
       | Some ts => if list_eqb region_eqb (ref_regions s) ts then [] else [20]
       | None => []
       end)
+  ++ (match c_tok_logical c with
+      | Some ts => if opt_eqb (list_eqb pairN_eqb) (option_map (map natpair) (ref_generator u lines)) (Some ts) then [] else [22]
+      | None => []
+      end)
   ++ (if regions_wf s rs && (lenN rc =? lenN s) && text_eqb (join_nl lines) s
-         && (negb (prefix_sane u s) || list_eqb region_eqb rs (ref_regions s)) then [] else [21]).
+         && (negb (lex_sane u s) || list_eqb region_eqb rs (ref_regions s)) then [] else [21])
+  (* 23: the unproved simulation statement fails on this case: the line scanner avoids both defect shapes and the
+     reference accepts the text, yet custom_generator differs from the reference logical lines *)
+  ++ (match ref_generator u lines with
+      | Some rg => if negb (shape_free u lines) || list_eqb pairN_eqb (map natpair cg) (map natpair rg) then [] else [23]
+      | None => []
+      end).
 
 Fixpoint mismatches_from (i : N) (cs : list case) : list (N * N) :=
   match cs with
@@ -141,5 +154,20 @@ Fixpoint mismatches_from (i : N) (cs : list case) : list (N * N) :=
 Definition mismatches (cs : list case) : list (N * N) := mismatches_from 0 cs.
 
 (* how many cases are inside the domain of C14_regions_are_tokens_partial *)
-Definition count_prefix_sane (cs : list case) : N :=
-  N.of_nat (length (filter (fun c => prefix_sane (table_of (c_alnum c) (c_space c) (c_xid c)) (c_text c)) cs)).
+Definition count_shape_free (cs : list case) : N :=
+  N.of_nat (length (filter (fun c => let u := table_of (c_alnum c) (c_space c) (c_xid c) in
+                                     shape_free u (all_lines (c_text c))
+                                     && match ref_generator u (all_lines (c_text c)) with Some _ => true | None => false end) cs)).
+Definition count_lex_sane (cs : list case) : N :=
+  N.of_nat (length (filter (fun c => lex_sane (table_of (c_alnum c) (c_space c) (c_xid c)) (c_text c)) cs)).
+
+(* per case: 1 if lex_sane holds, +2 if shape_free holds (what the model predicts about the two defect families) *)
+Fixpoint flags_from (i : N) (cs : list case) : list (N * N) :=
+  match cs with
+  | [] => []
+  | c :: r =>
+      let u := table_of (c_alnum c) (c_space c) (c_xid c) in
+      (i, (if lex_sane u (c_text c) then 1 else 0) + (if shape_free u (all_lines (c_text c)) then 2 else 0))
+      :: flags_from (N.succ i) r
+  end.
+Definition case_flags (cs : list case) : list (N * N) := flags_from 0 cs.
